@@ -6,28 +6,259 @@ def _c13_case(c):
     return {"line": c}
 
 
+# ---------------------------------------------------------------------------
+# Thorough tier: a sample of the correspondence cases is re-evaluated INSIDE Coq with
+# vm_compute and compared with what the extracted OCaml runner printed (model.txt).
+# This cross-checks the extraction and the OCaml driver, not the implementation.
+
+def _s(h):
+    if h == "-" or h == "":
+        return "(@nil N)"
+    return "[" + "; ".join(str(x) for x in bytes.fromhex(h)) + "]"
+
+
+def _desc3(mt, dg, sz):
+    return "(mkDesc %s %s %s)" % (_s(mt), _s(dg), sz)
+
+
+def _desc_slash(t):
+    a, b_, c = t.split("/")
+    return _desc3(a, b_, c)
+
+
+def _result(tok):
+    if tok == "ok":
+        return "ROk"
+    if tok.startswith("bool:"):
+        return "(RBool %s)" % ("true" if tok[5:] == "1" else "false")
+    if tok.startswith("desc:"):
+        return "(RDesc %s)" % _desc_slash(tok[5:])
+    if tok.startswith("bytes:"):
+        return "(RBytes %s)" % _s(tok[6:])
+    if tok.startswith("db:"):
+        d, c = tok[3:].split(",")
+        return "(RDescBytes %s %s)" % (_desc_slash(d), _s(c))
+    if tok.startswith("descs:"):
+        l = tok[6:]
+        if l == "-":
+            return "(RDescs [])"
+        if "+" in l:
+            return None        # printed sorted; the order inside Coq may differ
+        return "(RDescs [%s])" % _desc_slash(l)
+    return {"err:nf": "(RErr ENotFound)", "err:ref": "(RErr EInvalidRef)", "err:other": "(RErr EOther)"}.get(tok)
+
+
+def _vm_history(t, out):
+    """t = tokens after 'H'; out = model line.  Returns a Coq proposition or None."""
+    it = iter(t)
+    nx = lambda: next(it)
+    main, other, pb, _plain, rst = nx(), nx(), nx(), nx(), nx()
+    mts = [nx() for _ in range(int(nx()))]
+    k = nx()
+    kor = "None"
+    if k != "-":
+        f = nx()
+        c = {"dig-garbage": "KDigGarbage", "dig-drop": "KDigDrop", "len-inc": "KLenInc", "len-drop": "KLenDrop",
+             "type-other": "KTypeOther", "type-garbage": "KTypeGarbage", "type-drop": "KTypeDrop", "loc-drop": "KLocDrop"}.get(f)
+        if f == "dig-other":
+            c = "(KDigOther %s)" % _s(nx())
+        if f == "status":
+            c = "(KStatus %s)" % nx()
+        kor = "(Some (%s, %s))" % (k, c)
+    pool = []
+    for _ in range(int(nx())):
+        pool.append((nx(), nx(), nx()))
+    others = [int(nx()) for _ in range(int(nx()))]
+    ops = []
+    d3 = lambda: _desc3(nx(), nx(), nx())
+    for _ in range(int(nx())):
+        o = nx()
+        if o == "push":
+            d = d3(); ops.append("OPush %s %s" % (d, _s(pool[int(nx())][0])))
+        elif o in ("fetch", "exists", "delete", "preds"):
+            ops.append("%s %s" % ({"fetch": "OFetch", "exists": "OExists", "delete": "ODelete", "preds": "OPreds"}[o], d3()))
+        elif o in ("resolve", "fetchref", "bresolve", "bfetchref"):
+            ops.append("%s %s" % ({"resolve": "OResolve", "fetchref": "OFetchRef", "bresolve": "OBlobResolve", "bfetchref": "OBlobFetchRef"}[o], _s(nx())))
+        elif o == "tag":
+            d = d3(); ops.append("OTag %s %s" % (d, _s(nx())))
+        elif o == "pushref":
+            d = d3(); c = _s(pool[int(nx())][0]); ops.append("OPushRef %s %s %s" % (d, c, _s(nx())))
+        elif o == "mount":
+            d = d3(); g = nx()
+            ops.append("OMount %s %s" % (d, "None" if g == "-" else "(Some %s)" % _s(pool[int(g)][0])))
+        else:
+            return None
+    # H and subject_of as tables over the pool (later entries win, as in the OCaml driver)
+    hfun, sfun = "(b \"sha256:unknown\")", "(Some None)"
+    for c, dg, sj in pool:
+        hfun = "(if str_eqb c %s then %s else %s)" % (_s(c), _s(dg), hfun)
+        sv = "None" if sj == "N" else ("(Some None)" if sj == "-" else "(Some (Some %s))" % _desc_slash(sj))
+        sfun = "(if str_eqb c %s then %s else %s)" % (_s(c), sv, sfun)
+    parts = out.split(" | ")
+    if not parts[0].startswith("notallowed=0") or len(parts) - 1 != len(ops):
+        return None
+    exp = []
+    for p_ in parts[1:]:
+        res, _, tr = p_.partition(" ")
+        r = _result(res)
+        if r is None:
+            return None
+        exp.append("(%d%%nat, %s)" % (0 if tr == "-" else tr.count(";") + 1, r))
+    bit = lambda i: "true" if pb[i] == "1" else "false"
+    prof = "(mkProfile %s %s %s %s %s)" % tuple(bit(i) for i in range(5))
+    call = ("(run_history (fun c => %s) vm_parse_mt (fun c => %s) %s %s %s %s %s %s %s %s)"
+            % (hfun, sfun, _s(main), _s(other), "[" + "; ".join(_s(m) for m in mts) + "]" if mts else "(@nil str)", prof, kor,
+               "[" + "; ".join("(%s, %s)" % (_s(pool[i][1]), _s(pool[i][0])) for i in others) + "]" if others else "(@nil (str * str))",
+               ["RSUnknown", "RSSupported", "RSUnsupported"][int(rst)],
+               "[" + "; ".join(ops) + "]"))
+    call = call.replace("(run_history (fun c => %s) vm_parse_mt (fun c => %s) %s %s [" % (hfun, sfun, _s(main), _s(other)),
+                        "(run_history (fun c => %s) vm_parse_mt (fun c => %s) %s %s [" % (hfun, sfun, _s(main), _s(other)))
+    return ("let out := snd %s in\n  map (fun tr => (length (fst tr), snd tr)) out = [%s] /\\\n"
+            "  forallb (fun tr => forallb (fun qr => allowed (fst qr)) (fst tr)) out = true" % (call, "; ".join(exp)))
+
+
+def _vm_seek(t, out):
+    content = _s(t[0])
+    nm = int(t[1])
+    ms = [(t[2 + 2 * k], t[3 + 2 * k]) for k in range(nm)]
+    modes = "(fun _ => mkBm 0 false)"
+    if nm:
+        modes = "(fun i => nth (Nat.modulo i %d) [%s] (mkBm 0 false))" % (
+            nm, "; ".join("mkBm %s %s" % (c, "true" if e == "1" else "false") for c, e in ms))
+    i = 2 + 2 * nm
+    n = int(t[i]); i += 1
+    ops = []
+    for _ in range(n):
+        if t[i] == "r":
+            ops.append("SRead %s" % t[i + 1]); i += 2
+        elif t[i] == "s":
+            ops.append("SSeek (%s)%%Z %s" % (t[i + 1], ["SeekStart", "SeekCurrent", "SeekEnd"][int(t[i + 2])])); i += 3
+        else:
+            ops.append("SClose"); i += 1
+    exp = []
+    for p_ in out.split(" | "):
+        rq, _, o = p_.partition(":")
+        rqs = "(@nil (N * N))" if rq == "-" else "[" + "; ".join("(%s, %s)" % tuple(x.split("-")) for x in rq.split("+")) + "]"
+        if o.startswith("data:"):
+            _, c, e = o.split(":")
+            ov = "SData %s %s" % (_s(c), "true" if e == "eof" else "false")
+        elif o.startswith("pos:"):
+            ov = "SPos %s" % o[4:]
+        else:
+            ov = {"err": "SErr", "closed": "SClosed"}[o]
+        exp.append("(%s, %s)" % (rqs, ov))
+    return "rsc_run %s %s (rsc_open %s (len %s)) [%s] = [%s]" % (modes, content, content, content, "; ".join(ops), "; ".join(exp))
+
+
+def _vm_gram(t, out):
+    m, repo, ek, arg, dg, md, mf, ct, cl, ra, rb, body = t
+    opt = lambda x: "None" if x == "-" else ("(Some (@nil N))" if x == "~" else "(Some %s)" % _s(x))
+    ep = {"blob": "EBlob %s" % _s(arg), "man": "EManifest %s" % _s(arg), "up": "EUploads", "refs": "EReferrers %s" % _s(arg)}.get(ek)
+    if ek == "sess":
+        ep = "ESession %s" % arg
+    un = lambda x: "(@nil N)" if x in ("-", "~") else _s(x)
+    mount = "None" if md == "-" else "(Some (%s, %s))" % (un(md), un(mf))
+    q = "(mkReq %s %s (%s) %s %s None %s %s %s %s)" % (
+        m, _s(repo), ep, opt(dg), mount, opt(ct), "None" if cl == "-" else "(Some %s)" % cl,
+        "None" if ra == "-" else "(Some (%s, %s))" % (ra, rb), _s(body))
+    return "allowed %s = %s" % (q, "true" if out == "allowed=1" else "false")
+
+
+def _vm_loc(t, out):
+    exp = "None" if out == "UNJUDGED" else "Some %s" % _s(out[4:])
+    return "put_url_str %s %s %s %s %s = %s" % (_s(t[0]), _s(t[1]), _s(t[2]), _s(t[3]), _s(t[4]), exp)
+
+
+_VM_PRELUDE = """From Oras Require Import Base.Prelude Base.Regex Model.Reference Model.Registry Model.RemoteClient Model.Location.
+Definition vm_parse_mt (s : str) : option str :=
+  match s with [] => None | _ => if str_eqb (firstn 7 s) (b "garbage") then None else Some s end.
+"""
+
+
+def _c13_vm_sample(d, tier, coq, build):
+    import os, subprocess, collections
+    if tier != "thorough":
+        return []
+    outs = {}
+    with open(os.path.join(d, "model.txt")) as f:
+        for l in f:
+            i, _, o = l.rstrip("\n").partition(" ")
+            outs[i] = o
+    quota = {"H": 70, "S": 120, "A": 120, "U": 80}
+    maxlen = {"H": 5000, "S": 500, "A": 2000, "U": 2000}
+    total, got, stride, goals = collections.Counter(), collections.Counter(), collections.Counter(), []
+    with open(os.path.join(d, "cases.txt")) as f:
+        for l in f:
+            c = l.split(" ", 2)
+            if len(c) > 1 and c[1] in quota and len(l) <= maxlen[c[1]]:
+                total[c[1]] += 1
+    with open(os.path.join(d, "cases.txt")) as f:
+        for l in f:
+            i, _, c = l.rstrip("\n").partition(" ")
+            t = c.split(" ")
+            k = t[0]
+            if k not in quota or got[k] >= quota[k] or len(l) > maxlen[k] or i not in outs:
+                continue
+            stride[k] += 1
+            if (stride[k] - 1) % max(1, total[k] // quota[k]) != 0:
+                continue
+            o = outs[i]
+            if k != "U" and o.startswith("UNJUDGED"):
+                continue
+            try:
+                g = {"H": _vm_history, "S": _vm_seek, "A": _vm_gram, "U": _vm_loc}[k](t[1:], o)
+            except Exception:
+                g = None
+            if g:
+                got[k] += 1
+                goals.append((i, g))
+    vdir = os.path.join(build, "vm")
+    os.makedirs(vdir, exist_ok=True)
+    vf = os.path.join(vdir, "C13_cases.v")
+    with open(vf, "w") as f:
+        f.write(_VM_PRELUDE)
+        for i, g in goals:
+            f.write("\n(* %s *)\nGoal %s.\nProof. vm_compute. repeat split; reflexivity. Qed.\n" % (i, g))
+    p = subprocess.run(["coqc", "-R", coq, "Oras", "-w", "-notation-overridden", vf], cwd=vdir, timeout=1800,
+                       stdout=subprocess.PIPE, stderr=subprocess.STDOUT, text=True)
+    with open(os.path.join(d, "vm_sample.txt"), "w") as f:
+        f.write("%d goals %s rc=%d\n%s" % (len(goals), dict(got), p.returncode, p.stdout[-3000:]))
+    if p.returncode != 0:
+        return ["vm_compute re-evaluation of %d sampled cases inside Coq disagrees with the extracted runner (or does not type-check): %s"
+                % (len(goals), p.stdout[-1200:])]
+    if len(goals) < 150:
+        return ["vm_compute sample too small: %d goals %s" % (len(goals), dict(got))]
+    return []
+
+
 CONFIG = {
     "properties_file": "Properties/C13.v",
     "proof_files": ["Base/Prelude.v", "Base/Regex.v", "Proofs/Reference.v", "Proofs/RemoteClient.v",
-                    "Proofs/RemoteSeek.v", "Proofs/RemoteRefine.v"],
-    "model_files": ["Generated/GC20.v", "Generated/GC13.v", "Model/Reference.v", "Model/Registry.v",
-                    "Model/RemoteClient.v", "Model/RemoteSpec.v"],
+                    "Proofs/RemoteSeek.v", "Proofs/RemoteRefine.v", "Proofs/Location.v", "Proofs/Paging.v", "Proofs/RemotePaged.v"],
+    "model_files": ["Generated/GC20.v", "Generated/GC13.v", "Generated/GC15.v", "Model/Paging.v", "Model/Reference.v", "Model/Registry.v",
+                    "Model/RemoteClient.v", "Model/RemoteSpec.v", "Model/Location.v"],
     "extract": "XC13.v",
     "ml_main": "c13_main.ml",
     "harness": "c13",
     "case_to_replay": _c13_case,
+    "post_model": _c13_vm_sample,
+    "also_translate": ["C20", "C15"],   # Model/Reference.v (C20) and Model/Paging.v (C15) are imported
     "timeout_thorough": 3600,
     "assumptions": [
         "the hash function is a parameter H of the models (SHA-256 in the harness); the refinement theorem only needs that H yields well-formed digests (no collision-freeness): the body digest itself is checked by the consumer (C05)",
         "mime.ParseMediaType is a parameter parse_mt (None = error); refinement assumes it is the identity on the media types the caller uses and on application/octet-stream",
         "JSON decoding of a manifest's subject is a parameter subject_of (None = undecodable); refinement covers decodable manifests whose subject, if any, is pushed to a registry with the Referrers API (OCI-Subject), and Predecessors over that API (single page; pagination: C15); the client-side referrers tag schema is C14 (model prints UNJUDGED there)",
         "Repository.ParseReference is the C20 model repo_parse (proved in C20); the correspondence uses references without '/' so that net/url registry validation is not involved",
-        "net/http, net/url (Location resolution, the ':443' Location repair, query encoding), redirects, Warning headers, chunked upload and the auth client are modelled, not verified: the client is driven through remote.Client (no sockets); the fake registry builds *http.Response values directly",
+        "step 2 of the upload (Model/Location.v): Location following, the ':443' repair and the digest query are modelled on plain URLs (no user info, no IPv6 literal, unreserved characters, distinct query keys) as string manipulation and compared with the real PUT URL; other Location forms print UNJUDGED and are judged only by the net/url-based oracle; in the history model the Location stays abstract (repository, session)",
+        "Predecessors over a PAGINATING registry: composition with C15 (Model/Paging.v page loop, its hypotheses on Link rendering/resolution and document sizes are inherited); artifact type of a manifest is a parameter atype",
+        "Repository options SkipReferrersGC, TagListPageSize, ReferrerListPageSize, MaxMetadataBytes (1 MiB) and HandleWarning are rotated by the generator and must not change any modelled observable; Warning headers: oracle only (every well-formed 299 warning of every response reaches HandleWarning once, in order; others ignored)",
+        "response bodies: how a body hands out its bytes (short reads of any chunk size; the last bytes together with io.EOF or before a separate (0, io.EOF)) is a parameter `modes` (one behaviour per body) of the readSeekCloser model and of C13_seek; the fake registry rotates these behaviours over all its bodies; caller-side content readers rotate over *bytes.Reader, io.NopCloser and an opaque chunking reader whenever the descriptor's size is accurate",
+        "net/http transport, redirects, chunked upload and the auth client are not modelled: the client is driven through remote.Client (no sockets); the fake registry builds *http.Response values directly",
         "C13_refines_store_partial hypotheses (wf_hist): descriptors accurate for what the store holds; Resolve/FetchReference of a TAG through a HEAD request only against a registry that sends Docker-Content-Digest (known finding head-tag-no-digest-header; C13_refines_store_refuted is the witness)",
         "the distribution-spec registry is one deterministic state machine per capability profile (digest header, range, Content-Length on GET, mount, referrers); registries that validate manifest contents or convert media types on Accept are outside",
     ],
-    "level_text": "Coq theorems: (1) client o registry refines a content store with tags for every history of Push/Fetch/Exists/Delete/Resolve/FetchReference/Tag/PushReference/Mount/blob Resolve/FetchReference, every capability profile, ManifestMediaTypes option and referrers state (induction over the history with a registry invariant); (2) every request emitted against ANY server is in the request grammar `allowed`; (3) against ANY server a successful call implies a response consistent with the request (digest header, Content-Length, Content-Type, status, Location), plus the single-field-corruption form for Fetch; (4) readSeekCloser refines an in-memory reader for every Read/Seek script and emits Range bytes=off-(size-1) exactly when the offset changes inside the blob; (5) Predecessors over the Referrers API returns exactly the stored manifests with that subject (inside the refinement theorem and for any registry state). Tied to the code by translator-regenerated constants/tables, a differential run of the extracted models against remote.Repository over a fake registry whose complete request/response log is replayed through the extracted Registry.v, and an independent oracle",
-    "level_note": "refinement theorem is _partial: excludes resolving a tag by HEAD without Docker-Content-Digest (known finding, refuted witness proved), manifests with subjects on registries without the Referrers API / referrers state 'unsupported' (tag schema: C14), pagination (C15), inaccurate caller descriptors; net/http, net/url, mime, JSON are parameters / not modelled",
+    "level_text": "Coq theorems: (1) client o registry refines a content store with tags for every history of Push/Fetch/Exists/Delete/Resolve/FetchReference/Tag/PushReference/Mount/blob Resolve/FetchReference, every capability profile, ManifestMediaTypes option and referrers state (induction over the history with a registry invariant); (2) every request emitted against ANY server is in the request grammar `allowed`; (3) against ANY server a successful call implies a response consistent with the request (digest header, Content-Length, Content-Type, status, Location), plus the single-field-corruption form for Fetch; (4) readSeekCloser refines an in-memory reader for every Read/Seek script and every body behaviour (chunking, data with EOF; per body) and emits Range bytes=off-(size-1) exactly when the offset changes inside the blob; (5) Predecessors over the Referrers API returns exactly the stored manifests with that subject (inside the refinement theorem, for any registry state, and -- composed with C15 -- for any legal pagination); (6) the PUT of a two-step upload follows the Location (authority, path, query + digest) with the documented :443 repair only; (7) the digest-header hypothesis of (1) is tight in every registry state and all 32 profiles are covered (in-Coq computation). Tied to the code by translator-regenerated constants/tables, a differential run of the extracted models against remote.Repository over a fake registry whose complete request/response log is replayed through the extracted Registry.v, and an independent oracle",
+    "level_note": "refinement theorem is _partial: excludes resolving a tag by HEAD without Docker-Content-Digest (known finding, refuted witness proved), manifests with subjects on registries without the Referrers API / referrers state 'unsupported' (tag schema: C14), pagination (C15), inaccurate caller descriptors; net/http, mime, JSON are parameters / not modelled; net/url only for plain URLs",
     "technique": "machine-checked proof in Coq (refinement by induction over histories with a registry invariant; any-server lemmas for request grammar and response consistency; seek state-machine refinement) + translator-regenerated tables + model/implementation correspondence on full request/response traces",
     "explanation": "theorems over all histories/profiles/servers about Model/Registry.v + Model/RemoteClient.v; the extracted models are run on the same generated histories (rotating profiles, PlainHTTP, ManifestMediaTypes, referrers state, one corrupted response field, Read/Seek scripts) as registry/remote against harness/fakereg13 and compared on results and complete request/response logs; independent oracle = Go ground-truth store, distribution-spec endpoint table, must-fail table for contradicting corruptions, bytes.Reader for seeks",
 }
